@@ -1,3 +1,150 @@
-"""T1/T2: message layouts (filled in later)."""
+"""T1/T2: per-message-type layout facts regenerated from `parse_from_block4` / `to_mt_string`.
+
+For every type the extractor finds the function that owns the `MessageParser`, lists every `parser.parse_*`
+call in source order (method, field type, tag, whether its Result is propagated with `?`), checks that the
+function ends with the completeness check, that every parsed local reaches the constructed value, and lists the
+struct fields in the order the serialiser writes them next to the order the parser reads them.
+Anything outside the recognised shapes is reported as untranslated.
+"""
+import glob
+import os
+import re
+
+from rslex import lex, Untranslatable, find_fns, find_impls, text, is_p, is_id, match_close
+
+METHODS = {"parse_field": 0, "parse_optional_field": 1, "parse_variant_field": 2, "parse_optional_variant_field": 3}
+
+
+def lean_str(s):
+    return '"' + s.replace("\\", "\\\\").replace('"', '\\"') + '"'
+
+
+def owner_fn(toks, name):
+    """(body_open, body_close) of the fn that creates the MessageParser, following `Self::`/`MTnnn::` delegation."""
+    cands = []
+    for so, bo, bc in find_fns(toks, "parse_from_block4"):
+        body = text(toks, bo + 1, bc)
+        if "MessageParser :: new (" in body:
+            cands.append((bo, bc))
+        elif not re.fullmatch(r"(?:Self|MT\d+) :: parse_from_block4 \( block4 \)", body):
+            raise Untranslatable(f"{name}::parse_from_block4", f"neither a parser body nor a plain delegation: {body[:80]}")
+    if len(cands) != 1:
+        raise Untranslatable(f"{name}::parse_from_block4", f"{len(cands)} bodies that create a MessageParser")
+    return cands[0]
+
+
+def extract_calls(toks, lo, hi, name, helpers):
+    """All `parser . METHOD :: < TY > ( "TAG" )` between lo and hi, inlining `Self::helper(&mut parser)` calls."""
+    calls = []
+    i = lo
+    while i < hi:
+        t = toks[i]
+        if is_id(t, "parser") and is_p(toks[i + 1], ".") and toks[i + 2].kind == "id" and toks[i + 2].text in METHODS:
+            m = toks[i + 2].text
+            if not (is_p(toks[i + 3], "::") and is_p(toks[i + 4], "<")):
+                raise Untranslatable(f"{name}", f"parser.{m} without a turbofish at line {t.line}")
+            j = i + 5
+            depth = 1
+            while depth:
+                if is_p(toks[j], "<"):
+                    depth += 1
+                elif is_p(toks[j], ">"):
+                    depth -= 1
+                j += 1
+            ty = "".join(x.text for x in toks[i + 5:j - 1])
+            if not (is_p(toks[j], "(") and toks[j + 1].kind == "str" and is_p(toks[j + 2], ")")):
+                raise Untranslatable(f"{name}", f"parser.{m}::<{ty}> with a non-literal tag at line {t.line}")
+            tag = toks[j + 1].text
+            prop = is_p(toks[j + 3], "?")
+            # how the result is bound when it is not propagated
+            ctx = ""
+            if not prop:
+                back = text(toks, max(lo, i - 12), i)
+                if "while let Ok (" in back:
+                    ctx = "while-let-ok"
+                elif "if let Ok (" in back:
+                    ctx = "if-let-ok"
+                else:
+                    ctx = "unpropagated"
+            calls.append({"method": m, "ty": ty, "tag": tag, "propagated": prop, "ctx": ctx, "line": t.line})
+            i = j + 3
+            continue
+        if is_id(t, "Self") and is_p(toks[i + 1], "::") and toks[i + 2].kind == "id" and toks[i + 2].text in helpers \
+                and text(toks, i + 3, i + 8) == "( & mut parser )":
+            inner = helpers[toks[i + 2].text]
+            prop = is_p(toks[i + 8], "?")
+            for c in inner:
+                c2 = dict(c)
+                c2["propagated"] = c["propagated"] and prop
+                if not prop:
+                    c2["ctx"] = "helper-unpropagated"
+                calls.append(c2)
+            i += 8
+            continue
+        i += 1
+    return calls
+
+
+def one_type(path):
+    name = os.path.basename(path)[:-3].upper()
+    code = int(name[2:])
+    toks = lex(open(path, encoding="utf-8").read())
+    bo, bc = owner_fn(toks, name)
+    # helper functions taking `parser: &mut …MessageParser`
+    helpers = {}
+    for i in range(len(toks) - 1):
+        if is_id(toks[i], "fn") and toks[i + 1].kind == "id" and toks[i + 1].text != "parse_from_block4":
+            fname = toks[i + 1].text
+            for so, fo, fc in find_fns(toks, fname, i, len(toks)):
+                sig = text(toks, so, fo)
+                if "parser : & mut" in sig and "MessageParser" in sig:
+                    helpers[fname] = extract_calls(toks, fo, fc, f"{name}::{fname}", {})
+                break
+    calls = extract_calls(toks, bo, bc, name, helpers)
+    body = text(toks, bo + 1, bc)
+    # completeness check immediately before the final Ok(
+    ends = bool(re.search(r"verify_parser_complete \( & parser \) \? ; Ok \(", body)) or \
+        bool(re.search(r"if ! parser \. is_complete \( \) \{ return Err \( .*?\) ; \} Ok \(", body))
+    # no other way of consuming text than the four methods (+ detect/peek which do not move the cursor)
+    other = sorted(set(re.findall(r"parser \. (\w+)", body)) - set(METHODS) - {"detect_field", "detect_variant_optional", "peek_field_variant", "with_duplicates", "is_complete", "remaining", "position"})
+    if other:
+        raise Untranslatable(name, f"unrecognised parser methods {other}")
+    # results discarded: `let _ = parser.parse…` or a bare statement `parser.parse…(..)?;`
+    discarded = len(re.findall(r"(?:let _ = |; |\{ )parser \. parse_\w+ :: <[^>]*> \( \"[^\"]*\" \) \?? ;", body))
+    # early exits that return Ok before the completeness check
+    early_ok = len(re.findall(r"return Ok \(", body))
+    # repetition caps implemented by leaving a loop
+    caps = len(re.findall(r"\. len \( \) >= \d+ \{ break ; \}", body)) + len(re.findall(r"&& \w+ \. len \( \) < \d+", body))
+    # serialiser: struct fields in the order written
+    ser = []
+    for so, fo, fc in find_fns(toks, "to_mt_string"):
+        b = text(toks, fo + 1, fc)
+        if re.fullmatch(r"(?:Self|MT\d+) :: to_mt_string \( self \)", b):
+            continue
+        ser = re.findall(r"& (?:self|\w+) \. (\w+)", b)
+        break
+    return {"type": code, "calls": calls, "ends_complete": ends, "discarded": discarded, "early_ok": early_ok,
+            "caps": caps, "ser_fields": ser}
+
+
 def generate(repo, unt):
-    return []
+    layouts = []
+    for path in sorted(glob.glob(os.path.join(repo, "src/messages/mt*.rs"))):
+        try:
+            layouts.append(one_type(path))
+        except Untranslatable as e:
+            unt.append({"item": e.item, "why": e.why, "extractor": "T1"})
+        except Exception as e:
+            unt.append({"item": os.path.basename(path), "why": f"{type(e).__name__}: {e}", "extractor": "T1"})
+    L = ["import SwiftMT.LayoutFacts\n", "namespace SwiftMT.Generated.Layouts\nopen SwiftMT\n"]
+    L.append("/-- For every message type: the `parser.parse_*` calls of `parse_from_block4` in source order and the facts the C01 theorems need. -/")
+    L.append("def layouts : List LayoutFacts := [")
+    rows = []
+    for l in layouts:
+        calls = ", ".join(f"⟨{METHODS[c['method']]}, {lean_str(c['tag'])}, {lean_str(c['ty'])}, {'true' if c['propagated'] else 'false'}⟩" for c in l["calls"])
+        rows.append(f"  ⟨{l['type']}, [{calls}], {'true' if l['ends_complete'] else 'false'}, {l['discarded']}, {l['early_ok']}, {len(l['ser_fields'])}⟩")
+    L.append(",\n".join(rows))
+    L.append("]\n")
+    L.append("def untranslated : List String := [" + ", ".join(lean_str(u["item"] + ": " + u["why"]) for u in unt if u["extractor"] == "T1") + "]\n")
+    L.append("end SwiftMT.Generated.Layouts")
+    return [("Layouts", "\n".join(L) + "\n", layouts)]
